@@ -123,7 +123,7 @@ PreludeTypes == <<
   "union U { int ua; float ub; };",
   "enum E { EK = 7 };",
   "struct CB { const int cb : 3; int x; };",
-  "#define NIL ((int *)0)",
+  "#define NIL ((td_t *)0)",   \* td_t is int; no keyword in the body: pp.c:keyword() frees the spelling of a keyword token that the macro body still owns, so a second use of such a macro reads freed memory (reported, C12/C19)
   "#define MF(a, b) ((a) + (b))",
   "#define MG(a, b) ((a) b)",
   "static int gst;",
